@@ -130,7 +130,7 @@ example : certifiedPartition ⟨Cmp.lt.fn, #[#[1, 2, 2, 2], #[1, 1]]⟩ 4 = some
 /-- the `rank == N` shortcut of `multisequence_partition`: every offset is the end of its sequence, and
 no element is read -/
 theorem partition_rank_total (c : Ctx) :
-    runM (partitionM c (totalLen c)) = .ok (c.runs.map (fun x => (x.size : Int)), #[]) := by
+    runM (partitionM c (totalLen c)) = .ok (seqlenOf c, #[]) := by
   simp [runM, partitionM, StateT.run, pure, StateT.pure, Except.pure]
 
 /-- … and the ends of the sequences are the partition at rank N -/
